@@ -193,7 +193,7 @@ PLANS = {
         'assumptions': ['lns conversion is judged by an acceptance predicate (nearest or its neighbour in the log domain)'],
         'streams': [exh('posit_from_exh', 'posit_small', 'from'), rnd('posit_from_rnd', 'posit_large', 'from', 400, 8000, shards=23)] +
                    [exh('cfloat_from_exh%d' % k, 'cfloat_s%d' % k, 'from') for k in range(4)] +
-                   [rnd('cfloat_from_rnd%d' % k, 'cfloat_s%d' % k, 'from', 400, 8000, shards=4) for k in (10, 11, 12, 13)] +
+                   [rnd('cfloat_from_rnd%d' % k, 'cfloat_s%d' % k, 'from', 400, 8000, shards=4) for k in (10, 11, 12)] +
                    [exh('fixpnt_from_exh', 'fixpnt_small', 'from'), rnd('fixpnt_from_rnd', 'fixpnt_large', 'from', 300, 6000, shards=16),
                     exh('integer_from_exh', 'integer_small', 'from'), rnd('integer_from_rnd', 'integer_large', 'from', 300, 6000, shards=16)],
     },
@@ -215,7 +215,7 @@ PLANS = {
         'assumptions': [],
         'streams': [exh('posit_cmp_exh', 'posit_small', 'cmp'), rnd('posit_cmp_rnd', 'posit_large', 'cmp', 800, 15000, shards=23)] +
                    [exh('cfloat_cmp_exh%d' % k, 'cfloat_s%d' % k, 'cmp') for k in range(4)] +
-                   [rnd('cfloat_cmp_rnd%d' % k, 'cfloat_s%d' % k, 'cmp', 800, 15000, shards=4) for k in (10, 11, 12, 13)] +
+                   [rnd('cfloat_cmp_rnd%d' % k, 'cfloat_s%d' % k, 'cmp', 800, 15000, shards=4) for k in (10, 11, 12)] +
                    [exh('fixpnt_cmp_exh', 'fixpnt_small', 'cmp'), rnd('fixpnt_cmp_rnd', 'fixpnt_large', 'cmp', 600, 10000, shards=16),
                     exh('integer_cmp_exh', 'integer_small', 'cmp'), rnd('integer_cmp_rnd', 'integer_large', 'cmp', 600, 10000, shards=16)],
     },
